@@ -627,8 +627,15 @@ def _mvn_family_problems(dim, parameterization, sharp, blocks):
             if okind == "KLpq" and len(samples) == 2:
                 continue     # known finding C14.value2d.KLpq
             obj = make_objective(okind, q, joint, samples)
-            for draw in range(2):
+            for draw in range(4):
                 torch.manual_seed(4 + draw)
+                # a cast that changes nothing (what `--dtype float64` / a device move do to a model already there) between two evaluation
+                # requests, applied to ONE side only (if both sides go stale together they are stale at the same old sample, where the
+                # identity still holds): the next request still draws fresh samples and evaluates both densities at them
+                if draw == 2:
+                    q.to(torch.float64)
+                if draw == 3:
+                    joint.to(torch.float64)
                 try:
                     val = float(obj())
                 except Exception as e:
